@@ -12,7 +12,7 @@ GEN_FILES = []
 EXTRA_TARGETS = ["Extract/ExtractEdit.vo"]
 AREAS = ["edit"]
 RULE = ("exhaustive shape space: every assignment of Keep / Clear / Set to the six editable fields (3^6 = 729 requests, value shape "
-        "str or list alternating) x 12 base metafiles (v1 / v2 / hybrid x {all optional fields, none, tracker+source}, written by the "
+        "str or list alternating) x 15 base metafiles (3 reference-encoded ones with UNSORTED top-level and info keys; v1 / v2 / hybrid x {all optional fields, none, tracker+source}, written by the "
         "tool's creators, and reference-encoded metafiles with foreign extra keys) through edit_torrent, plus the CLI-expressible "
         "subset through `torrentfile edit` (sampled 1/4 in the quick tier); model tie: the bytes written must equal the extracted Coq "
         "model's edit of the same file bytes; end to end, independently of the model: every named field has its value (or is gone) at "
@@ -54,14 +54,12 @@ def decode(raw):
     try:
         return oracle.bdecode_strict(raw)
     except Exception:  # noqa
-        import pyben
-        from props.c01 import _to_bytes
-        return _to_bytes(pyben.loads(raw))
+        return oracle.plain(oracle.bdecode_lenient(raw))
 
 
 def info_span(raw):
     try:
-        _, span = oracle.bdecode_strict(raw, want_span=b"info")
+        _, span = oracle.bdecode_lenient(raw, want_span=b"info")
         return raw[span[0]:span[1]]
     except Exception:  # noqa
         return None
